@@ -1,10 +1,114 @@
 /- driver ops for property C03 (model side of the correspondence) -/
 import Rsa.Core.Wire
+import Rsa.Core.Compare
 
-open Lean Rsa.Wire
+open Lean Rsa.Wire Rsa.Compare
 
 namespace Rsa.Drv.C03
 
-def handle : Handler := fun _op _j => none
+def asSigma {β} (f : Json → R β) (j : Json) : R (SigmaK β) :=
+  if j.isNull then pure .none
+  else do
+    let a ← asArr j
+    match a with
+    | [] => pure (.vec [])
+    | e :: _ =>
+      match e with
+      | .arr _ => do let m ← asList (asList f) j; pure (.mat m)
+      | _ => do let v ← asList f j; pure (.vec v)
+
+def eighF : List (List Float) → List Float × List (List Float) := jacobiEigh 12
+
+/-- measures evaluated in IEEE doubles -/
+def measureF (method : String) (n : Nat) (V : List (List Float)) (x y : List Float) : R Json :=
+  match method with
+  | "cosine" => pure (ofFloat (cosine x y))
+  | "corr" => pure (ofFloat (corr x y))
+  | "spearman" => pure (ofFloat (spearman x y))
+  | "kendall" | "tau-b" => pure (ofOpt ofFloat (tauB x y))
+  | "tau-a" => pure (ofFloat (tauA x y))
+  | "rho-a" => pure (ofFloat (rhoA x y))
+  | "cosine_cov" => pure (ofOpt ofFloat (whitenedCos V x y))
+  | "corr_cov" => pure (ofOpt ofFloat (whitenedCorr V x y))
+  | "cosine_cov_fast" => pure (ofFloat (whitenedCosFast n x y))
+  | "corr_cov_fast" => pure (ofFloat (whitenedCosFast n (center x) (center y)))
+  | "bures" => pure (ofFloat (buresSim eighF (kernelRows n x) (kernelRows n y)))
+  | "bures_metric" => pure (ofFloat (sqBuresMetric eighF (kernelRows n x) (kernelRows n y)))
+  | m => throw s!"unknown method {m}"
+
+/-- measures evaluated exactly -/
+def measureQ (method : String) (x y : List Rat) : R Json :=
+  match method with
+  | "tau-a" => pure (ofRat (tauA x y))
+  | "tau-a-spec" => pure (ofRat (tauASpec x y))
+  | "rho-a" => pure (ofRat (rhoA x y))
+  | m => throw s!"method {m} is not exact"
+
+/-- `compare(x, y, method, sigma_k)`: the whole matrix -/
+def compareOp (j : Json) : R Json := do
+  let method ← fld j "method" >>= asStr
+  let n ← fld j "n" >>= asNat
+  let exact ← asBool (fldD j "exact" (Json.bool false))
+  if exact then
+    let xs ← fld j "x" >>= asList (asList asRat)
+    let ys ← fld j "y" >>= asList (asList asRat)
+    let rows ← (compareAll (measureQ method) xs ys).mapM (fun r => r.mapM id)
+    pure (ofList (ofList id) rows)
+  else
+    let xs ← fld j "x" >>= asList (asList asFloat)
+    let ys ← fld j "y" >>= asList (asList asFloat)
+    let sg ← asSigma asFloat (fldD j "sigma" Json.null)
+    let V := if method = "cosine_cov" ∨ method = "corr_cov" then getV n sg else []
+    let rows ← (compareAll (measureF method n V) xs ys).mapM (fun r => r.mapM id)
+    pure (ofList (ofList id) rows)
+
+/-- `_get_v(n, sigma_k)` exactly, both as coded and as defined -/
+def getvOp (j : Json) : R Json := do
+  let n ← fld j "n" >>= asNat
+  let sg ← asSigma asRat (fldD j "sigma" Json.null)
+  pure (obj [("coded", ofList (ofList ofRat) (getV n sg)),
+             ("spec", ofList (ofList ofRat) (vSpec n sg.entry))])
+
+/-- tie-averaged ranks, exactly -/
+def ranksOp (j : Json) : R Json := do
+  let x ← fld j "x" >>= asList asRat
+  pure (ofList ofRat (avgRank x))
+
+/-- the pair counts behind tau-a / tau-b -/
+def countsOp (j : Json) : R Json := do
+  let x ← fld j "x" >>= asList asRat
+  let y ← fld j "y" >>= asList asRat
+  pure (obj [("con", ofNat (nCon x y)), ("dis", ofNat (nDis x y)), ("xtie", ofNat (nTieX x y)),
+             ("ytie", ofNat (nTieY x y)), ("ntie", ofNat (nTieXY x y)),
+             ("tot", ofNat (Rsa.Gen.C03.tauTot x.length)),
+             ("con_minus_dis", ofInt (conMinusDis x y))])
+
+/-- solve `A s = b` in doubles (residual check of the stand-in solver) -/
+def solveOp (j : Json) : R Json := do
+  let a ← fld j "a" >>= asList (asList asFloat)
+  let b ← fld j "b" >>= asList asFloat
+  pure (ofList ofFloat (solve a b))
+
+/-- eigenvalues of a symmetric matrix by the Jacobi routine -/
+def eighOp (j : Json) : R Json := do
+  let a ← fld j "a" >>= asList (asList asFloat)
+  pure (ofList ofFloat (eighF a).1)
+
+/-- centred kernel of an RDM vector, exactly -/
+def kernelOp (j : Json) : R Json := do
+  let n ← fld j "n" >>= asNat
+  let x ← fld j "x" >>= asList asRat
+  pure (ofList (ofList ofRat) (kernelRows n x))
+
+def handle : Handler := fun op j =>
+  match op with
+  | "c03.compare" => some (compareOp j)
+  | "c03.getv" => some (getvOp j)
+  | "c03.ranks" => some (ranksOp j)
+  | "c03.counts" => some (countsOp j)
+  | "c03.solve" => some (solveOp j)
+  | "c03.eigh" => some (eighOp j)
+  | "c03.kernel" => some (kernelOp j)
+  | _ => none
 
 end Rsa.Drv.C03
